@@ -101,7 +101,7 @@ fn build_file(path: &Path, sh: &Shape) -> Result<Built, String> {
     if sh.vec { mem.enable_vec().map_err(|e| format!("enable_vec: {e}"))?; }
     // every put: (uri, digest hex, digest32, has embedding)
     let mut puts: Vec<(String, String, u32, bool)> = Vec::new();
-    let mut put = |mem: &mut Memvid, rng: &mut Rng, puts: &mut Vec<(String, String, u32, bool)>| -> Result<(), String> {
+    let put = |mem: &mut Memvid, rng: &mut Rng, puts: &mut Vec<(String, String, u32, bool)>| -> Result<(), String> {
         let k = puts.len();
         let uri = format!("mv2://c21/{k}");
         let ts = 1_700_000_000 + (rng.below(5000) as i64);
@@ -695,31 +695,39 @@ fn run_all(cases: &[Case], dir: &Path, jobs: usize, drv: &mut Option<Driver>, su
             Err(e) => { sum.notes.push(format!("base build failed for {}: {e}", c.shape.key())); }
         }
     }
-    let next = Arc::new(AtomicUsize::new(0));
-    let results: Arc<Mutex<Vec<Option<RealRun>>>> = Arc::new(Mutex::new((0..cases.len()).map(|_| None).collect()));
     let cases_arc: Arc<Vec<Case>> = Arc::new(cases.to_vec());
     let bases_arc = Arc::new(bases);
-    let mut hs = Vec::new();
-    for _ in 0..jobs.max(1) {
-        let (next, results, cases_arc, bases_arc, dir) = (next.clone(), results.clone(), cases_arc.clone(), bases_arc.clone(), dir.to_path_buf());
-        hs.push(std::thread::spawn(move || loop {
-            let i = next.fetch_add(1, Ordering::SeqCst);
-            if i >= cases_arc.len() { break; }
-            let c = &cases_arc[i];
-            let Some(b) = bases_arc.get(&c.shape.key()) else { continue };
-            let r = run_real(&dir, i, b, c);
-            results.lock().unwrap()[i] = r;
-        }));
-    }
-    for h in hs { let _ = h.join(); }
-    let mut results = results.lock().unwrap();
-    for (i, c) in cases.iter().enumerate() {
-        let Some(b) = bases_arc.get(&c.shape.key()) else { continue };
-        match results[i].take() {
-            Some(rr) => evaluate(c, b, &rr, drv, sum, known, verbose),
-            None => { sum.branch("structure-absent"); }
+    // batches: the real runs of a batch in parallel, then its evaluation; stop early once enough has gone wrong
+    let batch = (jobs.max(1) * 4).max(8);
+    let mut start = 0usize;
+    while start < cases.len() {
+        let end = (start + batch).min(cases.len());
+        let next = Arc::new(AtomicUsize::new(start));
+        let results: Arc<Mutex<Vec<Option<RealRun>>>> = Arc::new(Mutex::new((start..end).map(|_| None).collect()));
+        let mut hs = Vec::new();
+        for _ in 0..jobs.max(1) {
+            let (next, results, cases_arc, bases_arc, dir) = (next.clone(), results.clone(), cases_arc.clone(), bases_arc.clone(), dir.to_path_buf());
+            hs.push(std::thread::spawn(move || loop {
+                let i = next.fetch_add(1, Ordering::SeqCst);
+                if i >= end { break; }
+                let c = &cases_arc[i];
+                let Some(b) = bases_arc.get(&c.shape.key()) else { continue };
+                let r = run_real(&dir, i, b, c);
+                results.lock().unwrap()[i - start] = r;
+            }));
         }
-        if sum.oracle_violations.len() + sum.disagreements.len() >= 12 { break; }
+        for h in hs { let _ = h.join(); }
+        let mut results = results.lock().unwrap();
+        for i in start..end {
+            let c = &cases[i];
+            let Some(b) = bases_arc.get(&c.shape.key()) else { continue };
+            match results[i - start].take() {
+                Some(rr) => evaluate(c, b, &rr, drv, sum, known, verbose),
+                None => { sum.branch("structure-absent"); }
+            }
+        }
+        if sum.oracle_violations.len() + sum.disagreements.len() >= 6 { break; }
+        start = end;
     }
 }
 
@@ -778,7 +786,7 @@ fn main() {
     cases.push(Case { shape: sh_pend.clone(), faults: vec![Damage::TocSum(1)], bits: 16 });
     cases.push(Case { shape: sh_clean.clone(), faults: vec![Damage::Index(0, 3)], bits: 9 });       // vacuum + forced time rebuild
     let shapes_quick = [sh_clean.clone(), sh_pend.clone(), sh_plain.clone()];
-    let n = if args.thorough { 520 } else { 12 };
+    let n = if args.thorough { 320 } else { 10 };
     let mut shapes: Vec<Shape> = shapes_quick.to_vec();
     if args.thorough { for _ in 0..9 { shapes.push(gen_shape(&mut rng)); } }
     // every single fault and every option combination appears; the pairing is random
